@@ -321,5 +321,7 @@ def random_stack(rng, depth, top=True):
         inner = ["E2O", inner] if inner[0] != "TBT" else ["Multi", [inner]]
     if r < 0.8:
         return ["Decorator", inner]
-    return ["Tagger", rng.sample(TAGS, rng.randint(0, 2)), rng.sample(TAGS, rng.randint(0, 1)), inner,
-            rng.choice(["set", "set", "iter", "mutated"])]
+    new = rng.sample(TAGS, rng.randint(0, 2))
+    # (disjoint, as for tags(): what a tag both added and removed in one call ends up as is not specified)
+    gone = [t for t in rng.sample(TAGS, rng.randint(0, 1)) if t not in new]
+    return ["Tagger", new, gone, inner, rng.choice(["set", "set", "iter", "mutated"])]
